@@ -7,12 +7,13 @@ Open Scope Z_scope.
 (* user-level precondition: the parts of an AtomicMultiChannelPT are atomic (TypeError otherwise) *)
 Fixpoint uok (p : pt) : Prop :=
   match p with
-  | Atom _ _ _ _ _ => True
+  | Atom _ _ _ _ _ _ => True
   | AMC subs _ _ =>
       forallb atomic subs = true /\
       (fix all (l : list pt) : Prop := match l with [] => True | q :: r => uok q /\ all r end) subs
   | Seq subs _ _ => (fix all (l : list pt) : Prop := match l with [] => True | q :: r => uok q /\ all r end) subs
   | Par inner _ => uok inner
+  | Ari inner _ _ => uok inner
   | Rep body _ _ _ => uok body
   | For body _ _ _ _ _ _ => uok body
   | Map inner _ _ => uok inner
@@ -93,9 +94,8 @@ Qed.
 (* with all declared names supplied the model agrees with the ideal verdict, except that a missing *needed* value
    (impossible when the declared names cover the needed ones) would surface as another error *)
 Lemma complete_agrees : forall p s drop, wf p -> good s -> covers s (pnames p) ->
-  run p s drop = verdict p (lookup s) drop
-  \/ (verdict p (lookup s) drop = Err Missing /\ run p s drop = Err Other).
+  run p s drop = verdict p (lookup s) drop \/ verdict p (lookup s) drop = Err Missing.
 Proof.
-  intros p s drop Hwf G C. destruct (run_ref p Hwf s drop) as [H|[H|H]]; auto.
+  intros p s drop Hwf G C. destruct (run_ref_u p Hwf s drop) as [H|[H|[H _]]]; auto.
   exfalso. exact (run_nm p Hwf s drop G C H).
 Qed.
